@@ -971,6 +971,13 @@ def call_external(ex, f, args, kwargs, node):
         st = ex.method_stubs.get('__next__')
         if st is not None:
             return st(ex, args[0], args[1:], {})
+        if isinstance(args[0], list):
+            # an (eagerly evaluated) generator: its first element, else the default
+            if args[0]:
+                return args[0][0]
+            if len(args) > 1:
+                return args[1]
+            raise SymRaise(StopIteration, (), origin=ex.where(node))
         raise Unsupported('next() on abstract iterator')
     if f is id:
         v = args[0]
